@@ -428,9 +428,9 @@ def law_monitor(items, tmo0=True):
                 if kind == "idle" and w0 == "A" and w1 == "A" and t0 is not None and t1 is not None:
                     def blocked(t):
                         e, ep = t[2], t[3]
-                        return not (e & 4) and not ((e & 1) and (ep & 1)) and not (e == 2 and (ep & 2))
+                        return not (e & ELI["process"]) and not ((e & ELI["read"]) and (ep & 1)) and not (e == ELI["write"] and (ep & 2))
                     # only for connections without pending work: not touched by read/write in this round, not in eready
-                    if c not in touched and not (t0[3] & 4) and blocked(t0) and not (t1[2] & 4) and not blocked(t1):
+                    if c not in touched and not (t0[3] & 4) and blocked(t0) and not (t1[2] & ELI["process"]) and not blocked(t1):
                         errs.append("idle_quiet: handle_idle turned the blocked connection c=%d into %s" % (c, t1))
             touched.add(c)
             if kind == "read" and arg == 1:
@@ -559,7 +559,7 @@ def oracle(case, items):
         kr = rep.get("kready", "")
         any_ready = ("ep=1" in kr) or ("itc=1" in kr) or any(v for v in parse_idlist(kr).values())
         if rep.get("hint") == "none" and not any_ready:
-            stuck = [t[0] for t in rep.get("state", {}).get("A", []) if t[2] == 8]
+            stuck = [t[0] for t in rep.get("state", {}).get("A", []) if t[2] == ELI["cleanup"]]
             if stuck:
                 errs.append(("quiescent-with-closed-connection",
                              "after round %d: hint none, no watched descriptor ready, but connections %s are marked closed and "
@@ -569,8 +569,8 @@ def oracle(case, items):
             if aw:
                 st = rep.get("state", {})
                 tok = [t for t in st.get("A", []) if t[0] == aw[0]]
-                what = "connection marked closed but left in the active list" if tok and tok[0][2] == 8 else \
-                       "connection waits for processing" if tok and tok[0][2] in (4, 5) else \
+                what = "connection marked closed but left in the active list" if tok and tok[0][2] == ELI["cleanup"] else \
+                       "connection waits for processing" if tok and (tok[0][2] & ELI["process"]) else \
                        "connection waits for the wrong event" if tok else "connection is in no active list"
                 errs.append(("quiescent-while-awaiting (%s)" % what,
                              "after round %d: hint none, no watched descriptor ready, but clients %s (profiles %s) have "
@@ -741,6 +741,14 @@ class Spec:
         gen_loop()
 
     def build(self, ctx):
+        global ST_CLOSED, ELI
+        try:        # numeric codes the monitor and the oracle use to read the white-box snapshots: from the regenerated file
+            g = dict(re.findall(r"def (\w+) : Nat := (\d+)", open(GEN_PATH).read()))
+            ST_CLOSED = int(g.get("stClosed", ST_CLOSED))
+            ELI = {"read": int(g["eliRead"]), "write": int(g["eliWrite"]), "process": int(g["eliProcess"]),
+                   "processRead": int(g["eliProcessRead"]), "cleanup": int(g["eliCleanup"])}
+        except (OSError, KeyError, ValueError):
+            pass
         self.harness = vlib.build_daemon_harness(name="h_loop", src="harness/h_loop.c", ldextra=[WRAP, "-ldl"])
         self.driver = vlib.driver_path("drv_loop")
 
@@ -800,7 +808,7 @@ class Spec:
                         stats["rounds_with_suspend"] += 1
                     if r.begin.get("N"):
                         stats["rounds_with_new"] += 1
-                    if any(t[2] in (4, 5) for t in r.end.get("A", [])):
+                    if any(t[2] & ELI["process"] for t in r.end.get("A", [])):
                         stats["rounds_ending_in_process"] += 1
                     if it[2].get("hint") == "none":
                         stats["quiescent_reports"] += 1
